@@ -911,9 +911,15 @@ fn main() {
                     continue;
                 };
                 let lt = layout_tree(&reg, &rec["t"]);
-                for ver in rec["vers"].as_array().unwrap() {
-                    let ver = ver.as_u64().unwrap() as u32;
-                    writeln!(out, "{}", json!({"t": rec["t"], "ver": ver, "packed": e.ops.packed(ver), "lt": lt, "rust": e.rust})).unwrap();
+                // the decision must be a function of the version alone: every version is asked in descending and then in ascending
+                // order (a decision remembered from the first version asked would show in one of the two passes); "packed" is
+                // reported if either answer claims it
+                let vers: Vec<u32> = rec["vers"].as_array().unwrap().iter().map(|v| v.as_u64().unwrap() as u32).collect();
+                let down: Vec<bool> = vers.iter().rev().map(|v| e.ops.packed(*v)).collect();
+                for (n, ver) in vers.iter().enumerate() {
+                    let up = e.ops.packed(*ver);
+                    let dn = down[vers.len() - 1 - n];
+                    writeln!(out, "{}", json!({"t": rec["t"], "ver": ver, "packed": up || dn, "stable": up == dn, "lt": lt, "rust": e.rust})).unwrap();
                 }
             }
         }
